@@ -24,9 +24,6 @@ def main():
     args = [a for a in sys.argv[1:] if not a.startswith('--')]
     all_checks = '--all-checks' in sys.argv
     ids = args or sorted(d for d in os.listdir(SEEDED) if os.path.isdir(os.path.join(SEEDED, d)))
-    if not clean():
-        print('refusing: /repo has uncommitted changes')
-        return 2
     results = {}
     res_path = os.path.join(SEEDED, 'RESULTS.json')
     if os.path.exists(res_path):
@@ -37,26 +34,29 @@ def main():
         d = os.path.join(SEEDED, mid)
         meta = json.load(open(os.path.join(d, 'meta.json')))
         props = claimed if all_checks else [p for p in meta.get('expected_detection', {}) or meta.get('breaks', []) if p in claimed]
-        ap = sh('git -C /repo apply %s/patch.diff' % d)
+        scratch = '/tmp/mut_%s_%d' % (mid, os.getpid())
+        sh('git -C /repo worktree add --detach %s HEAD' % scratch)
+        ap = sh('git -C %s apply %s/patch.diff' % (scratch, d))
         if ap.returncode != 0:
             print('%s: patch does not apply: %s' % (mid, ap.stderr[:200]))
             results[mid] = {'error': 'patch does not apply'}
+            sh('git -C /repo worktree remove --force %s' % scratch)
             continue
         row = {}
         try:
             for prop in props:
                 t = time.time()
-                r = sh('./simcheck check %s --tier quick --no-selftest' % prop, cwd=VERIF, timeout=1800)
+                env = dict(os.environ, SIM_REPO=scratch)
+                r = sh('./simcheck check %s --tier quick --no-selftest' % prop, cwd=VERIF, timeout=1800, env=env)
                 viol = [l for l in r.stdout.splitlines() if l.startswith('VIOLATION')]
                 classes = [l.split('class=')[1].split()[0] for l in r.stdout.splitlines() if l.strip().startswith('class=')]
                 row[prop] = {'exit': r.returncode, 'violations': len(viol), 'classes': classes, 'wall_s': round(time.time() - t, 1)}
                 print('%s %s exit=%d classes=%s (%.0fs)' % (mid, prop, r.returncode, classes, time.time() - t))
         finally:
-            sh('git -C /repo checkout -- .')
+            sh('git -C /repo worktree remove --force %s' % scratch)
         results[mid] = {'breaks': meta.get('breaks'), 'checks': row,
                         'caught_by': sorted(p for p, v in row.items() if v['exit'] == 1)}
         json.dump(results, open(res_path, 'w'), indent=1, sort_keys=True)
-    assert clean()
     missed = [m for m in ids if not results.get(m, {}).get('caught_by')]
     print('missed:', missed)
     return 1 if missed else 0
